@@ -1077,7 +1077,7 @@ def get_charnos(node: ast.AST, source: str, keep_first_indent: bool = False) -> 
     if start is not node:
         # The "@" is in front of the first decorator, maybe with blanks, an opening bracket, a
         # line continuation or a comment in between: "@ foo", "@(foo)", "@(  # cached"
-        at_sign = re.search(r"@(?:[\s\\(]|#[^\n]*)*\Z", source[:start_charno])
+        at_sign = re.search(r"@(?:[\s\\(]|#[^\n]*\n)*\Z", source[:start_charno])
         if at_sign:
             start_charno = at_sign.start()
     if keep_first_indent:
